@@ -65,6 +65,11 @@ def gen_config(rng, lenclass: str):
     for j in range(n):
         key = rng.choice(["scsi0:0.fileName", "guestOS", "displayName", "memsize", "ethernet0.address", f"k{j}.Sub.Key", "annotation", "uuid.bios"]) + (f".{j}" if rng.random() < 0.5 else "")
         val = "".join(rng.choice("abcXYZ 0123456789-_./:äé日本😀|") for _ in range(rng.randrange(0, 60))).strip(' "')
+        if len(val) >= 2 and rng.random() < 0.15:
+            # inside a value: characters that str.splitlines() (not the VMX grammar) treats as line ends
+            cut = rng.randrange(1, len(val))
+            val = val[:cut].rstrip() + rng.choice("\u2028\u2029\u0085\x0b\x0c\x1c\x1d\x1e") + val[cut:].lstrip()
+            val = val if val == val.strip() else "x" + val.strip() + "x"
         entries[key] = val
     lines = [f'{k} = "{v}"' for k, v in entries.items()]
     text = "\n".join(lines) + "\n"
